@@ -10,7 +10,7 @@ from . import _syncpairs as sp
 PROP = "C13"
 LEVEL = "exploration"
 WORKERS = {"quick": 4, "thorough": 16}
-BUDGET = {"quick": 60, "thorough": 600}
+BUDGET = {"quick": 100, "thorough": 600}
 TECHNIQUE = (
     "Hypothesis pair generator (two projects over a small universe, explicit mtimes) x option grammar; "
     "postconditions P1-P6 computed from byte snapshots taken before the call"
